@@ -781,6 +781,8 @@ func TestSequentialScenarios(t *testing.T) {
 		{100 * ms, 2, true, []op{stop, stop, w(3), start, w(2), stop, running, start}},
 		{200 * ms, 2, false, []op{w(1), remove, running, stop, w(3)}},
 		{2100 * ms, 1, true, []op{w(3), start, w(2)}},
+		// the boundary of the shortening rule: a time-out of exactly 2 s is not shortened (the longest period there is)
+		{2000 * ms, 1, false, []op{w(1), stop}},
 		// the heartbeat outlives the entity's membership in the device: started again after the
 		// removal, a second removal has to stop it again
 		{100 * ms, 1, false, []op{w(1), remove, start, w(2), remove, running, w(3)}},
